@@ -28,24 +28,94 @@ func init() {
 	})
 }
 
-func doFns(c *Ctx) []*ssa.Function {
-	var out []*ssa.Function
-	for _, n := range []string{"parallel.Do", "parallel.DoContext"} {
-		if f := c.fn(n); f != nil {
-			out = append(out, f)
+// doImpl: an API function of package parallel together with the function that actually starts its workers (the API function
+// itself, or the helper it delegates the parallel case to) and the call chain leading there.
+type doImpl struct {
+	api   *ssa.Function
+	name  string // "parallel.Do"
+	fn    *ssa.Function
+	chain []*ssa.Call
+}
+
+func spawnsWorkers(in ssa.Instruction) bool {
+	switch x := in.(type) {
+	case *ssa.Go:
+		return true
+	case *ssa.Call:
+		if cal := x.Call.StaticCallee(); cal != nil && cal.Name() == "Go" && cal.Pkg != nil && strings.HasSuffix(cal.Pkg.Pkg.Path(), "errgroup") {
+			return true
 		}
+	}
+	return false
+}
+
+func doImpls(c *Ctx) []doImpl {
+	var out []doImpl
+	for _, n := range []string{"parallel.Do", "parallel.DoContext"} {
+		api := c.fn(n)
+		if api == nil {
+			continue
+		}
+		im := doImpl{api: api, name: n, fn: api}
+		for _, d := range deepInstrs(api, 3) {
+			if spawnsWorkers(d.in) && d.in.Parent().Parent() == nil {
+				im.fn = d.in.Parent()
+				im.chain = d.calls
+				break
+			}
+		}
+		out = append(out, im)
 	}
 	return out
 }
 
+func doFns(c *Ctx) []*ssa.Function {
+	var out []*ssa.Function
+	for _, im := range doImpls(c) {
+		out = append(out, im.fn)
+	}
+	return out
+}
+
+// apiName: the report name of the API function an implementation function belongs to.
+func apiName(c *Ctx, fn *ssa.Function) string {
+	for _, im := range doImpls(c) {
+		if im.fn == fn {
+			return im.name
+		}
+	}
+	return c.nameOf(fn)
+}
+
+// isUserFn: call of the user's callback f (a parameter / captured parameter of function type, not a package function).
+func isUserFn(call *ssa.Call) bool {
+	if call.Call.IsInvoke() {
+		return false
+	}
+	switch call.Call.Value.(type) {
+	case *ssa.Function, *ssa.Builtin, *ssa.MakeClosure:
+		return false
+	}
+	pv := valueProv(call.Call.Value, provEnv{})
+	_, isParam := pv.root.(*ssa.Parameter)
+	return isParam && len(pv.fields) <= 1 && (path(call.Call.Value) == "f" || strings.HasSuffix(path(call.Call.Value), ".f"))
+}
+
 func ruleDoBarrier(c *Ctx, r *R) {
-	do := c.fn("parallel.Do")
+	var do, dc *ssa.Function
+	for _, im := range doImpls(c) {
+		if im.name == "parallel.Do" {
+			do = im.fn
+		} else {
+			dc = im.fn
+		}
+	}
 	if do == nil {
 		r.undecided("parallel.Do|missing", token.NoPos, "anchor not found")
 		return
 	}
 	// typestate: 0 = no goroutine started, 1 = started and not waited, 2 = waited
-	pf := &PF{N: 3}
+	pf := &PF{N: 3, InScope: func(f *ssa.Function) bool { return f.Pkg == do.Pkg && f.Blocks != nil && f != do }}
 	pf.Instr = func(fn *ssa.Function, in ssa.Instruction, q int) (StateSet, bool) {
 		switch x := in.(type) {
 		case *ssa.Go:
@@ -62,7 +132,7 @@ func ruleDoBarrier(c *Ctx, r *R) {
 		k++
 		r.ok(!e.States.has(1), "parallel.Do|return#"+itoa(k), retPos(e.Ret), "a path returns after starting workers without wg.Wait(): Do would return while calls of f are still running")
 	}
-	bi := bgAnalyse(c, "parallel.Do")
+	bi := bgAnalyseFn(c, do, "parallel.Do")
 	// wg.Add(parallelism) with the spawn loop's bound
 	var add *ssa.Call
 	instrs(do, func(b *ssa.BasicBlock, i int, in ssa.Instruction) {
@@ -98,7 +168,6 @@ func ruleDoBarrier(c *Ctx, r *R) {
 		}
 		r.ok(first, "parallel.Do|worker-defers-done", g.Pos(), "each worker must defer wg.Done() before anything else so a panic or early return still releases the barrier")
 	}
-	dc := c.fn("parallel.DoContext")
 	if dc == nil {
 		r.undecided("parallel.DoContext|missing", token.NoPos, "anchor not found")
 		return
@@ -142,20 +211,24 @@ func sameVar(a, b ssa.Value) bool {
 }
 
 func ruleDoUniqueIndex(c *Ctx, r *R) {
-	for _, fn := range doFns(c) {
-		name := c.nameOf(fn)
-		bi := bgAnalyse(c, name)
-		// the shared counter: the variable whose address reaches atomic.AddInt32 (directly, or through a worker helper)
-		var counter *ssa.Alloc
-		isClaim := func(v ssa.Value, chain []*ssa.Call) bool {
+	for _, im := range doImpls(c) {
+		fn := im.fn
+		name := im.name
+		bi := bgAnalyseFn(c, fn, name)
+		// the shared counter: the variable (a local, or a field of a local struct) whose address reaches atomic.AddInt32,
+		// directly or inside a helper
+		var counter *prov
+		stripConv := func(v ssa.Value) ssa.Value {
 			for {
 				if cv, ok := v.(*ssa.Convert); ok {
 					v = cv.X
 					continue
 				}
-				break
+				return v
 			}
-			ac, ok := v.(*ssa.Call)
+		}
+		isClaimLeaf := func(lf leafVal) bool {
+			ac, ok := stripConv(lf.v).(*ssa.Call)
 			if !ok {
 				return false
 			}
@@ -163,46 +236,85 @@ func ruleDoUniqueIndex(c *Ctx, r *R) {
 			if cal == nil || cal.Name() != "AddInt32" || !isConstInt(ac.Call.Args[1], 1) {
 				return false
 			}
-			if cell := cellOf(argOf(ac.Call.Args[0], chain)); cell != nil && cell.Parent() == fn {
-				counter = cell
+			chain := lf.chain
+			if ac.Parent() != nil {
+				// the leaf lives in the innermost helper of the chain that produced it: rebuild the chain to that frame
+				for k := len(chain); k >= 0; k-- {
+					if k == 0 || staticCallee(&chain[k-1].Call) == origin(ac.Parent()) || staticCallee(&chain[k-1].Call) == ac.Parent() {
+						chain = chain[:k]
+						break
+					}
+				}
+			}
+			ap := addrProv(ac.Call.Args[0], provEnv{chain: chain})
+			if al, ok := ap.root.(*ssa.Alloc); ok && rootFn(al.Parent()) == rootFn(fn) {
+				counter = &ap
 				return true
 			}
 			return false
+		}
+		claimLeaves := func(v ssa.Value, chain []*ssa.Call) ([]leafVal, bool) {
+			ls := leavesKeepingChain(v, chain, 0)
+			if len(ls) == 0 {
+				return nil, false
+			}
+			for _, lf := range ls {
+				if !isClaimLeaf(lf) {
+					return ls, false
+				}
+			}
+			return ls, true
 		}
 		for _, g := range bi.spawned {
 			nf := 0
 			for _, di := range deepInstrs(g, 2) {
 				call, ok := di.in.(*ssa.Call)
-				if !ok || call.Call.IsInvoke() {
-					continue
-				}
-				if _, isFn := call.Call.Value.(*ssa.Function); isFn {
-					continue
-				}
-				if _, isB := call.Call.Value.(*ssa.Builtin); isB {
-					continue
-				}
-				if path(call.Call.Value) != "f" {
+				if !ok || !isUserFn(call) {
 					continue
 				}
 				nf++
 				idx := call.Call.Args[len(call.Call.Args)-1]
-				fromAdd := isClaim(idx, di.calls)
-				if phi, ok := idx.(*ssa.Phi); ok && !fromAdd {
-					// for i := claim(); i < n; i = claim()
-					all := len(phi.Edges) > 0
-					for _, e := range phi.Edges {
-						if !isClaim(e, di.calls) {
-							all = false
-						}
-					}
-					fromAdd = all
-				}
+				ls, fromAdd := claimLeaves(idx, di.calls)
 				r.ok(fromAdd, name+"|worker-index-from-atomic-add", call.Pos(), "the index handed to f must be the result of atomic.AddInt32(&x, 1) itself (through conversions only): any other derivation can hand the same index to two workers or skip one")
 				bounded := false
+				isIdxLeaf := func(v ssa.Value) bool {
+					for _, lf := range ls {
+						if lf.v == v || stripConv(lf.v) == stripConv(v) {
+							return true
+						}
+					}
+					return false
+				}
 				for _, gd := range guardsOf(call.Block()) {
-					if cf, ok := gd.asCmp(); ok && cf.x == idx && cf.op == token.LSS && strings.HasSuffix(path(cf.y), "n") {
+					if cf, ok := gd.asCmp(); ok && cf.x == idx && cf.op == token.LSS {
 						bounded = true
+					}
+					// the claim helper reports `index < n` through its boolean result
+					if bv, pol := gd.boolVal(); pol {
+						if ex, ok := bv.(*ssa.Extract); ok {
+							if hc, ok := ex.Tuple.(*ssa.Call); ok {
+								if cal := staticCallee(&hc.Call); cal != nil && cal.Blocks != nil {
+									all, any := true, false
+									instrs(cal, func(_ *ssa.BasicBlock, _ int, in2 ssa.Instruction) {
+										ret, ok := in2.(*ssa.Return)
+										if !ok || ex.Index >= len(ret.Results) {
+											return
+										}
+										any = true
+										bo, ok := returnedValue(ret, ex.Index).(*ssa.BinOp)
+										if !ok || bo.Op != token.LSS || !isIdxLeaf(bo.X) {
+											if kc, isK := returnedValue(ret, ex.Index).(*ssa.Const); isK && kc.Value != nil && kc.Value.String() == "false" {
+												return
+											}
+											all = false
+										}
+									})
+									if all && any {
+										bounded = true
+									}
+								}
+							}
+						}
 					}
 				}
 				r.ok(bounded, name+"|worker-index-below-n", call.Pos(), "f must be called only under i < n for the claimed index")
@@ -213,30 +325,51 @@ func ruleDoUniqueIndex(c *Ctx, r *R) {
 		}
 		okInit := false
 		if counter != nil {
-			for _, st := range storesTo(counter) {
-				if st.Parent() == fn && isConstInt(st.Val, -1) {
-					okInit = true
+			if cell, ok := counter.root.(*ssa.Alloc); ok {
+				if len(counter.fields) == 0 {
+					for _, st := range storesTo(cell) {
+						if rootFn(st.Parent()) == rootFn(fn) && isConstInt(st.Val, -1) {
+							okInit = true
+						}
+					}
+				} else {
+					// a field of a local struct: initialised by the composite literal
+					for _, f := range withAnon(rootFn(fn)) {
+						instrs(f, func(_ *ssa.BasicBlock, _ int, in ssa.Instruction) {
+							if st, ok := in.(*ssa.Store); ok && isConstInt(st.Val, -1) {
+								ap := addrProv(st.Addr, provEnv{})
+								if ap.root == counter.root && strings.Join(ap.fields, ".") == strings.Join(counter.fields, ".") {
+									okInit = true
+								}
+							}
+						})
+					}
 				}
 			}
 		}
 		r.ok(okInit, name+"|x-starts-at-minus-one", fn.Pos(), "the shared counter must start at -1 so the first AddInt32(&x,1) yields index 0")
-		// sequential path: f(i) with i the induction variable 0..n-1
+		// sequential path: f(i) with i the induction variable 0..n-1, reached only under parallelism == 1 (in the API function
+		// or in the helper it delegates the serial case to)
 		okSeq := false
-		instrs(fn, func(b *ssa.BasicBlock, i int, in ssa.Instruction) {
-			call, ok := in.(*ssa.Call)
-			if !ok || call.Call.IsInvoke() {
-				return
+		var pPar, nPar *ssa.Parameter
+		for _, p := range im.api.Params {
+			if isIntType(p.Type()) {
+				if pPar == nil {
+					pPar = p
+				} else if nPar == nil {
+					nPar = p
+				}
 			}
-			if _, isFn := call.Call.Value.(*ssa.Function); isFn {
-				return
-			}
-			if path(call.Call.Value) != "f" {
-				return
+		}
+		for _, d := range deepInstrs(im.api, 3) {
+			call, ok := d.in.(*ssa.Call)
+			if !ok || !isUserFn(call) || pPar == nil || nPar == nil {
+				continue
 			}
 			idx := call.Call.Args[len(call.Call.Args)-1]
 			phi, ok := idx.(*ssa.Phi)
 			if !ok {
-				return
+				continue
 			}
 			zero, step := false, false
 			for _, e := range phi.Edges {
@@ -247,30 +380,35 @@ func ruleDoUniqueIndex(c *Ctx, r *R) {
 					step = true
 				}
 			}
-			bounded := false
-			for _, gd := range guardsOf(b) {
-				if cf, ok := gd.asCmp(); ok && cf.x == ssa.Value(phi) && cf.op == token.LSS && strings.HasSuffix(path(cf.y), "n") {
+			bounded, one := false, false
+			for _, gs := range deepGuardStrings(d) {
+				parts := strings.SplitN(gs, " ", 3)
+				if len(parts) != 3 {
+					continue
+				}
+				if parts[0] == symOf(phi, provEnv{chain: d.calls}).String() && parts[1] == "<" && parts[2] == "param:"+nPar.Name() {
 					bounded = true
 				}
-			}
-			one := false
-			for _, gd := range guardsOf(b) {
-				if cf, ok := gd.asCmp(); ok && cf.op == token.EQL && isConstInt(cf.y, 1) && strings.Contains(path(cf.x), "parallelism") {
-					one = true
+				if parts[1] == "==" && strings.HasPrefix(parts[2], "1:") {
+					// the tested value derives from the parallelism parameter
+					if parts[0] == "param:"+pPar.Name() || strings.Contains(parts[0], "param:"+pPar.Name()) || strings.HasPrefix(parts[0], "phi") {
+						one = true
+					}
 				}
 			}
 			if zero && step && bounded && one {
 				okSeq = true
 			}
-		})
+		}
 		r.ok(okSeq, name+"|sequential-path", fn.Pos(), "the parallelism == 1 path must call f(i) for i = 0..n-1 in a plain counting loop")
 	}
 }
 
 func ruleDoBounded(c *Ctx, r *R) {
-	for _, fn := range doFns(c) {
-		name := c.nameOf(fn)
-		bi := bgAnalyse(c, name)
+	for _, im := range doImpls(c) {
+		fn := im.fn
+		name := im.name
+		bi := bgAnalyseFn(c, fn, name)
 		if len(bi.spawned) != 1 {
 			r.violated(name+"|one-spawn-site", fn.Pos(), "expected exactly one spawn site")
 			continue
@@ -286,41 +424,29 @@ func ruleDoBounded(c *Ctx, r *R) {
 		}
 		good := false
 		why := "spawn loop bound not found"
-		if bound != nil {
-			// reaching definitions of parallelism
-			var defs []ssa.Value
-			if cell := loadCell(bound); cell != nil {
-				for _, st := range storesTo(cell) {
-					defs = append(defs, st.Val)
+		// the API function's two integer parameters, in order: parallelism and n
+		var pPar, nPar *ssa.Parameter
+		for _, p := range im.api.Params {
+			if isIntType(p.Type()) {
+				if pPar == nil {
+					pPar = p
+				} else if nPar == nil {
+					nPar = p
 				}
-			} else {
-				seen := map[ssa.Value]bool{}
-				var walk func(v ssa.Value)
-				walk = func(v ssa.Value) {
-					if seen[v] {
-						return
-					}
-					seen[v] = true
-					if phi, ok := v.(*ssa.Phi); ok {
-						for _, e := range phi.Edges {
-							walk(e)
-						}
-						return
-					}
-					defs = append(defs, v)
-				}
-				walk(bound)
 			}
+		}
+		if bound != nil && pPar != nil && nPar != nil {
 			good = true
 			hasParam, hasClampN, hasMaxprocs := false, false, false
-			for _, d := range defs {
-				switch x := d.(type) {
+			for _, lf := range valueLeaves(bound, im.chain, 0) {
+				switch x := lf.v.(type) {
 				case *ssa.Parameter:
-					if x.Name() == "parallelism" {
+					switch x {
+					case pPar:
 						hasParam = true
-					} else if x.Name() == "n" {
+					case nPar:
 						hasClampN = true
-					} else {
+					default:
 						good = false
 						why = "spawn bound may be parameter " + x.Name()
 					}
@@ -329,37 +455,51 @@ func ruleDoBounded(c *Ctx, r *R) {
 						hasMaxprocs = true
 					} else {
 						good = false
-						why = "spawn bound may be " + path(d)
+						why = "spawn bound may be " + path(lf.v)
 					}
 				default:
-					if strings.HasSuffix(path(d), "n") {
-						hasClampN = true
-					} else {
-						good = false
-						why = "spawn bound may be " + path(d)
-					}
+					good = false
+					why = "spawn bound may be " + path(lf.v)
 				}
 			}
 			if !(hasParam && hasClampN && hasMaxprocs) {
 				good = false
 				why = "spawn bound must come from {parallelism, GOMAXPROCS(-1), n}"
 			}
-			// the clamp: a store/phi edge of n under parallelism > n
+			// the default and the clamp: branches on `parallelism <= 0` and `parallelism > n` on the way to the spawn loop
+			// (in the API function, in the implementation, or in a helper that normalises the value)
 			clamp, dflt := false, false
-			instrs(fn, func(b *ssa.BasicBlock, i int, in ssa.Instruction) {
-				iff, ok := in.(*ssa.If)
+			pn, nn := "param:"+pPar.Name(), "param:"+nPar.Name()
+			for _, d := range deepInstrs(im.api, 3) {
+				iff, ok := d.in.(*ssa.If)
 				if !ok {
-					return
+					continue
 				}
-				if bin, ok := iff.Cond.(*ssa.BinOp); ok && strings.Contains(path(bin.X), "parallelism") {
-					if bin.Op == token.GTR && strings.HasSuffix(path(bin.Y), "n") && b.Dominates(site.Block()) {
-						clamp = true
-					}
-					if bin.Op == token.LEQ && isConstInt(bin.Y, 0) {
-						dflt = true
+				bin, ok := iff.Cond.(*ssa.BinOp)
+				if !ok {
+					continue
+				}
+				env := provEnv{chain: d.calls}
+				xs, ys := symOf(bin.X, env), symOf(bin.Y, env)
+				// the tested value is the parallelism parameter or the value derived from it so far (a merge with its default)
+				isP := xs.String() == pn
+				if !isP {
+					for _, lf := range valueLeaves(bin.X, d.calls, 0) {
+						if lf.v == ssa.Value(pPar) {
+							isP = true
+						}
 					}
 				}
-			})
+				if !isP {
+					continue
+				}
+				if bin.Op == token.GTR && ys.String() == nn {
+					clamp = true
+				}
+				if bin.Op == token.LEQ && ys.isConst(0) {
+					dflt = true
+				}
+			}
 			if !clamp || !dflt {
 				good = false
 				why = "missing `parallelism <= 0 → GOMAXPROCS` default or `parallelism > n → n` clamp before the spawn loop"
@@ -380,12 +520,17 @@ func ruleDoBounded(c *Ctx, r *R) {
 }
 
 func ruleDoErrorContract(c *Ctx, r *R) {
-	dc := c.fn("parallel.DoContext")
+	var dc, dcAPI *ssa.Function
+	for _, im := range doImpls(c) {
+		if im.name == "parallel.DoContext" {
+			dc, dcAPI = im.fn, im.api
+		}
+	}
 	if dc == nil {
 		r.undecided("parallel.DoContext|missing", token.NoPos, "anchor not found")
 		return
 	}
-	bi := bgAnalyse(c, "parallel.DoContext")
+	bi := bgAnalyseFn(c, dc, "parallel.DoContext")
 	var egCtx ssa.Value
 	instrs(dc, func(b *ssa.BasicBlock, i int, in ssa.Instruction) {
 		if call, ok := in.(*ssa.Call); ok {
@@ -464,31 +609,35 @@ func ruleDoErrorContract(c *Ctx, r *R) {
 	}
 	// sequential path: returns f's error
 	seq := false
-	instrs(dc, func(b *ssa.BasicBlock, i int, in ssa.Instruction) {
-		ret, ok := in.(*ssa.Return)
-		if !ok {
-			return
+	for _, d := range deepInstrs(dcAPI, 3) {
+		ret, ok := d.in.(*ssa.Return)
+		if !ok || len(ret.Results) == 0 {
+			continue
 		}
-		if call, ok := ret.Results[0].(*ssa.Call); ok && !call.Call.IsInvoke() && len(call.Call.Args) == 2 {
-			if _, isFn := call.Call.Value.(*ssa.Function); !isFn && path(call.Call.Value) == "f" {
-				seq = true
-			}
+		if call, ok := ret.Results[0].(*ssa.Call); ok && len(call.Call.Args) == 2 && isUserFn(call) {
+			seq = true
 		}
-	})
+	}
 	r.ok(seq, "parallel.DoContext|sequential-returns-f-error", dc.Pos(), "the sequential path must return f's error as soon as it occurs")
 	// Map / MapContext callbacks
 	mc := c.fn("parallel.MapContext")
-	if mc == nil || len(mc.AnonFuncs) != 1 {
+	cb := mapCallback(mc)
+	if mc == nil || cb == nil {
 		r.undecided("parallel.MapContext|callback", token.NoPos, "callback not found")
 		return
 	}
-	cb := mc.AnonFuncs[0]
 	instrs(cb, func(b *ssa.BasicBlock, i int, in ssa.Instruction) {
 		call, ok := in.(*ssa.Call)
 		if !ok || call.Call.IsInvoke() || len(call.Call.Args) != 2 || !isContextType(call.Call.Args[0].Type()) {
 			return
 		}
-		r.ok(call.Call.Args[0] == ssa.Value(cb.Params[0]), "parallel.MapContext|callback-passes-own-ctx", call.Pos(), "the callback must hand f the context it was given by DoContext (the one that is cancelled on the first error), not the captured outer context")
+		var ownCtx ssa.Value
+		for _, p := range cb.Params {
+			if isContextType(p.Type()) && ownCtx == nil {
+				ownCtx = p
+			}
+		}
+		r.ok(ownCtx != nil && call.Call.Args[0] == ownCtx, "parallel.MapContext|callback-passes-own-ctx", call.Pos(), "the callback must hand f the context it was given by DoContext (the one that is cancelled on the first error), not the captured outer context")
 		// error returned unchanged
 		okErr := false
 		for _, ref := range *call.Referrers() {
@@ -539,11 +688,11 @@ func ruleDoErrorContract(c *Ctx, r *R) {
 func ruleMapPositional(c *Ctx, r *R) {
 	for _, name := range []string{"parallel.Map", "parallel.MapContext"} {
 		fn := c.fn(name)
-		if fn == nil || len(fn.AnonFuncs) != 1 {
+		cb := mapCallback(fn)
+		if fn == nil || cb == nil {
 			r.undecided(name+"|callback", token.NoPos, "callback not found")
 			continue
 		}
-		cb := fn.AnonFuncs[0]
 		iP := cb.Params[len(cb.Params)-1]
 		inIdx, outIdx := false, false
 		bad := ""
@@ -579,4 +728,26 @@ func ruleMapPositional(c *Ctx, r *R) {
 		})
 		r.ok(okLen, name+"|out-len", fn.Pos(), "out must have len(in) elements")
 	}
+}
+
+// mapCallback: the function value Map / MapContext hands to Do / DoContext (a function literal or a method value).
+func mapCallback(fn *ssa.Function) *ssa.Function {
+	if fn == nil {
+		return nil
+	}
+	var cb *ssa.Function
+	instrs(fn, func(b *ssa.BasicBlock, i int, in ssa.Instruction) {
+		call, ok := in.(*ssa.Call)
+		if !ok {
+			return
+		}
+		cal := staticCallee(&call.Call)
+		if cal == nil || (cal.Name() != "Do" && cal.Name() != "DoContext") || len(call.Call.Args) == 0 {
+			return
+		}
+		if f, _ := funcAndReceiver(call.Call.Args[len(call.Call.Args)-1]); f != nil {
+			cb = f
+		}
+	})
+	return cb
 }
